@@ -108,12 +108,12 @@ fn base_c(op: &Value) -> u64 {
 /// readlink-style call with a canary-guarded buffer.
 fn with_buffer<F: FnOnce(*mut c_char, usize) -> c_int>(op: &Value, f: F) -> Outcome {
     let size = op.get("bufsize").and_then(|b| b.as_u64()).unwrap_or(4096) as usize;
-    let null = op.get("buf_null").and_then(|b| b.as_bool()).unwrap_or(false);
+    let is_null = op.get("buf_null").and_then(|b| b.as_bool()).unwrap_or(false);
     const G: usize = 64;
     let mut mem = vec![0xAAu8; G];
     mem.extend(std::iter::repeat(0xBB).take(size));
     mem.extend(std::iter::repeat(0xCC).take(G));
-    let ptr = if null { std::ptr::null_mut() } else { unsafe { mem.as_mut_ptr().add(G) as *mut c_char } };
+    let ptr = if is_null { std::ptr::null_mut() } else { unsafe { mem.as_mut_ptr().add(G) as *mut c_char } };
     let ret = f(ptr, size);
     if ret < 0 {
         return Outcome::Json(json!({"cerr": take_error(ret)}));
@@ -121,7 +121,7 @@ fn with_buffer<F: FnOnce(*mut c_char, usize) -> c_int>(op: &Value, f: F) -> Outc
     let lo_ok = mem[..G].iter().all(|c| *c == 0xAA);
     let hi_ok = mem[G + size..].iter().all(|c| *c == 0xCC);
     Outcome::Json(json!({"ret": ret, "buf": hex(&mem[G..G + size]), "guards_ok": lo_ok && hi_ok,
-                         "size": size, "null": null}))
+                         "size": size, "null": is_null}))
 }
 
 pub fn run_c(root_fd: Option<i32>, handle_fd: Option<i32>, op: &Value) -> Outcome {
@@ -192,4 +192,132 @@ pub fn run_c(root_fd: Option<i32>, handle_fd: Option<i32>, op: &Value) -> Outcom
             _ => panic!("unknown C op {k}"),
         }
     }
+}
+
+/// C16: many threads fail and consume errors concurrently.  Returns a report:
+/// ids handed out while all were live, per-id consumption results, and a
+/// serialised history (store/take under a harness lock) for model replay.
+pub fn error_stress(root: c_int, nthreads: usize, per_thread: usize, seed: u64) -> Value {
+    use std::sync::{Arc, Mutex};
+    let mut violations: Vec<Value> = vec![];
+    // kinds: (name, expected errno)
+    let fail = move |t: usize, j: usize| -> (c_int, String, u64) {
+        unsafe {
+            match (t + j) % 4 {
+                0 => {
+                    let tok = format!("missing-{t}-{j}");
+                    let p = CString::new(tok.clone()).unwrap();
+                    (pathrs_inroot_resolve(root, p.as_ptr()), tok, libc::ENOENT as u64)
+                }
+                1 => {
+                    // invalid argument: NULL path
+                    (pathrs_inroot_resolve(root, std::ptr::null()), "path".to_string(), libc::EINVAL as u64)
+                }
+                2 => {
+                    let tok = format!("sock-{t}-{j}");
+                    let p = CString::new(tok.clone()).unwrap();
+                    (pathrs_inroot_mknod(root, p.as_ptr(), libc::S_IFSOCK | 0o644, 0), "".to_string(), libc::ENOSYS as u64)
+                }
+                _ => {
+                    let tok = format!("gone-{t}-{j}/x");
+                    let p = CString::new(tok.clone()).unwrap();
+                    (pathrs_inroot_open(root, p.as_ptr(), libc::O_RDONLY), format!("gone-{t}-{j}"), libc::ENOENT as u64)
+                }
+            }
+        }
+    };
+    // phase A: everybody fails concurrently, nothing is consumed
+    let mut handles = vec![];
+    for t in 0..nthreads {
+        handles.push(std::thread::spawn(move || {
+            let mut v = vec![];
+            for j in 0..per_thread {
+                let (id, tok, errno) = fail(t, j);
+                v.push((t, j, id, tok, errno));
+            }
+            v
+        }));
+    }
+    let mut all: Vec<(usize, usize, c_int, String, u64)> = vec![];
+    for h in handles {
+        all.extend(h.join().unwrap());
+    }
+    let mut seen = std::collections::HashSet::new();
+    for (t, j, id, _, _) in &all {
+        if *id >= -4095 {
+            violations.push(json!({"what": "id not below -4095", "thread": t, "j": j, "id": id}));
+        }
+        if !seen.insert(*id) {
+            violations.push(json!({"what": "duplicate live id", "thread": t, "j": j, "id": id}));
+        }
+    }
+    // phase B: ids are consumed by OTHER threads, concurrently
+    let all = Arc::new(all);
+    let mut handles = vec![];
+    for t in 0..nthreads {
+        let all = all.clone();
+        handles.push(std::thread::spawn(move || {
+            let mut bad = vec![];
+            for (ot, j, id, tok, errno) in all.iter() {
+                if (ot + 1) % nthreads != t {
+                    continue;
+                }
+                let r = take_error(*id);
+                let ok = r.get("null").is_none()
+                    && r["errno"].as_u64() == Some(*errno)
+                    && r["desc"].as_str().map(|d| d.contains(tok.as_str())).unwrap_or(false)
+                    && r["second_null"].as_bool() == Some(true);
+                if !ok {
+                    bad.push(json!({"what": "errorinfo mismatch", "thread": ot, "j": j, "id": id, "token": tok,
+                                     "expected_errno": errno, "got": r}));
+                }
+            }
+            bad
+        }));
+    }
+    for h in handles {
+        violations.extend(h.join().unwrap());
+    }
+    // phase C: interleaved store/take with a serialised log
+    let log: Arc<Mutex<Vec<Value>>> = Arc::new(Mutex::new(vec![]));
+    let pool: Arc<Mutex<Vec<(c_int, String)>>> = Arc::new(Mutex::new(vec![]));
+    let mut handles = vec![];
+    for t in 0..nthreads.min(8) {
+        let log = log.clone();
+        let pool = pool.clone();
+        handles.push(std::thread::spawn(move || {
+            let mut x = seed.wrapping_add(t as u64 * 7919) | 1;
+            for j in 0..per_thread {
+                x ^= x << 13;
+                x ^= x >> 7;
+                x ^= x << 17;
+                let mut lg = log.lock().unwrap();
+                let mut pl = pool.lock().unwrap();
+                if x % 3 != 0 || pl.is_empty() {
+                    let tok = format!("hist-{t}-{j}");
+                    let p = CString::new(tok.clone()).unwrap();
+                    let id = unsafe { pathrs_inroot_resolve(root, p.as_ptr()) };
+                    lg.push(json!(["s", id, tok]));
+                    pl.push((id, tok));
+                } else {
+                    let k = (x as usize / 3) % pl.len();
+                    let (id, tok) = pl.swap_remove(k);
+                    let r = take_error(id);
+                    let got = r["desc"].as_str().map(|d| d.contains(tok.as_str())).unwrap_or(false);
+                    lg.push(json!(["t", id, if got { Value::String(tok) } else { Value::Null }, r["second_null"].clone()]));
+                }
+            }
+        }));
+    }
+    for h in handles {
+        h.join().unwrap();
+    }
+    // drain
+    for (id, _) in pool.lock().unwrap().drain(..) {
+        let _ = take_error(id);
+    }
+    let min_id = all.iter().map(|x| x.2).min().unwrap_or(0);
+    let max_id = all.iter().map(|x| x.2).max().unwrap_or(0);
+    let history = log.lock().unwrap().clone();
+    json!({"n_ids": all.len(), "min_id": min_id, "max_id": max_id, "violations": violations, "history": history})
 }
